@@ -84,7 +84,7 @@ pub fn run(ctx: &Ctx) -> (Report, String) {
     if ctx.is_main() {
         let m = ctx.scale_pct;
         rep.require("p_pictures_compared", if ctx.tier == Tier::Quick { 200_000 } else { 3_000_000 } * m / 100);
-        for k in ["phase=00", "phase=10", "phase=01", "phase=11", "edge=inside", "edge=crossing", "edge=outside", "kind=INTER", "kind=INTER4V", "kind=INTER+Q", "kind=INTER4V+Q", "kind=not-coded", "kind=INTRA", "kind=implicit-after-end", "no_reference_rejected", "truncated_pictures", "interlude_rejected_inputs", "interlude_disposable_pictures_compared", "no_reference_after_all_intra_disposable", "no_reference_after_rejected_input"] {
+        for k in ["phase=00", "phase=10", "phase=01", "phase=11", "edge=inside", "edge=crossing", "edge=outside", "kind=INTER", "kind=INTER4V", "kind=INTER+Q", "kind=INTER4V+Q", "kind=not-coded", "kind=INTRA", "kind=implicit-after-end", "no_reference_rejected", "truncated_pictures", "interlude_rejected_inputs", "interlude_disposable_pictures_compared", "no_reference_after_all_intra_disposable", "no_reference_after_rejected_input", "calls_repeated_after_transient_source_error", "chains_after_an_accepted_mode_announcement", "chains_after_a_rejected_mode_announcement"] {
             rep.require(k, 1000 * m / 100);
         }
     }
@@ -340,8 +340,37 @@ fn case_cov(ctx: &Ctx, shard: usize, index: u64, rep: &mut Report, cov: &mut Cov
             return;
         }
     };
+    // baseline streams: an earlier PLUSPTYPE picture may have announced unrestricted motion vectors (an
+    // accepted intra picture, which becomes the reference, or a picture rejected after its header) -
+    // the baseline pictures that follow still wrap their vectors
+    if flavour == Flavour::StdFixed && rng.chance(1, 2) {
+        let accepted = rng.chance(1, 2);
+        let ann = super::c12::umv_announcement(&mut rng, w, h, true, !accepted).encode();
+        match (dec.decode(&ann), accepted) {
+            (Outcome::Ok, true) => {
+                refp = dec.planes().unwrap();
+                rep.count("chains_after_an_accepted_mode_announcement");
+            }
+            (Outcome::Err(_), false) => rep.count("chains_after_a_rejected_mode_announcement"),
+            (Outcome::Panic { msg, loc }, _) => {
+                rep.violation(format!("panic@{}", loc), format!("mode announcement panicked: {}", msg), coords("announcement"));
+                return;
+            }
+            (o, _) => {
+                rep.count(&format!("skipped:announcement:{}", o.short()));
+                return;
+            }
+        }
+    }
     // the source of each following picture may hand out only a few bytes per read call
     dec.chunk = *rng.pick(&[usize::MAX, usize::MAX, usize::MAX, 1, 3, 16, 500]);
+    if rng.chance(1, 6) {
+        dec.stall = Some((rng.below(1001) as usize, rng.below(3) as u8));
+    }
+    // ... or arrive late: the first few bytes of each picture now, the rest after the call failed for lack of data
+    if dec.stall.is_none() && rng.chance(1, 8) {
+        dec.trickle = Some(1 + rng.below(6) as usize);
+    }
     let chain = 1 + rng.below(3) as usize;
     let mut fp = fnv64(&ref_bytes);
     let mut nontrivial = false;
@@ -453,6 +482,8 @@ fn case_cov(ctx: &Ctx, shard: usize, index: u64, rep: &mut Report, cov: &mut Cov
             }
         }
     }
+    rep.add("calls_repeated_after_transient_source_error", dec.stalls_retried as u64);
+    rep.add("calls_repeated_after_late_delivery", dec.trickles_retried as u64);
     if nontrivial {
         rep.distinct.insert(fp);
     }
